@@ -1,4 +1,5 @@
 import DmlcModel.RecordIO.Model
+import DmlcModel.Split.Model
 import Driver.Proto
 namespace Driver.RecordIO
 open DmlcModel DmlcModel.RecordIO
@@ -32,6 +33,7 @@ def step (s : St) : List String → St × String
   | ["dump"] => (s, "bytes " ++ hexOrDash s.stream)
   | ["counter"] => (s, s!"counter {s.counter}")
   | ["readall"] => (s, showOpt (readAll s.stream))
+  | ["fixedrt"] => (s, showOpt (readAll s.stream))   -- same records through exact-size fixed buffers
   | ["read1"] =>
     match nextRecord s.stream with
     | .eos => (s, "eos")
@@ -41,6 +43,24 @@ def step (s : St) : List String → St × String
     match k.toNat?, n.toNat? with
     | some k, some n => (s, showOpt (chunkPart s.stream k n))
     | _, _ => (s, "bad-op")
+  | ["sseek", o] =>
+    match o.toNat? with
+    | some o =>
+      if s.stream.isEmpty then (s, "no-file")
+      else if o > s.stream.length then (s, "out-of-range")
+      else match DmlcModel.Split.Fmt.recordio.seekRecordBegin (s.stream.drop o) with
+        | .ok (n, _) => (s, s!"nstep {n}")
+        | .error _ => (s, "err:check")
+    | none => (s, "bad-op")
+  | ["slast", e] =>
+    match e.toNat? with
+    | some e =>
+      if s.stream.isEmpty then (s, "no-file")
+      else if e > s.stream.length then (s, "out-of-range")
+      else match DmlcModel.Split.Fmt.recordio.findLastRecordBegin (s.stream.take e) with
+        | .ok n => (s, s!"last {n}")
+        | .error _ => (s, "err:check")
+    | none => (s, "bad-op")
   | ["scan", o] =>
     match o.toNat? with
     | some o =>
